@@ -107,6 +107,18 @@ CHECKS = {
         note=TB + " Real arithmetic: rsqrt(0) and inf*0 are not modelled (a float-only difference would not be seen).",
         technique="contract-based deductive verification: transition contract of one update call, AST->VC, z3",
     ),
+    "C09": dict(
+        text=("Per-step algebraic contract that the frequent-directions theorem needs, proved on the real "
+              "distributed_shampoo._fd_update_root (symbolic size, rank, padding, decay, exponent) and tearfree.sketchy._update_axis "
+              "(tensor rank 1..3, every axis, k<d and k=d): escaped mass t' = b*t + s[k]^2; retained eigenvalues in "
+              "{0,(s_i-c)(s_i+c)} and >= 0; dropped columns exactly zero; stored inverse roots (s_i^2 + b*t [+eps])^(-1/p) where "
+              "kept / 0 where dropped, inv_tail, and the identity s_i^2 + b*t = l'_i + t' the code relies on; the decomposed "
+              "matrix is [sqrt(b) V diag(sqrt l) ; G]. SVD/QR outputs are opaque (s descending, >= 0). The OCO sketches are "
+              "covered by C16. The PSD bracket itself is the cited FD theorem, not proved."),
+        design="7/C09",
+        note=TB + " svd: singular values sorted and non-negative; qr(mode='r') opaque; real powers uninterpreted (rpow) with sign facts.",
+        technique="contract-based deductive verification: per-step recurrences as postconditions, AST->VC, z3",
+    ),
 }
 
 NA_REASON = "check not built yet (build in progress); the planned contract kernel is described in DESIGN.md section 7"
